@@ -64,8 +64,26 @@ def main():
     if valid:
         dst = os.path.join(VERIF, 'seeded', name)
         os.makedirs(dst, exist_ok=True)
-        shutil.copy(os.path.join(src, 'patch.diff'), dst)
-        shutil.copy(demo, dst)
+        if os.path.abspath(src) != os.path.abspath(dst):
+            shutil.copy(os.path.join(src, 'patch.diff'), dst)
+            shutil.copy(demo, dst)
+        old = {}
+        if os.path.exists(os.path.join(dst, 'meta.json')):
+            try:
+                old = json.load(open(os.path.join(dst, 'meta.json')))
+            except Exception:
+                old = {}
+        hist = old.get('history', [])
+        caught = any(isinstance(v, dict) and v.get('exit') == 1 and any(l.startswith('VIOLATION') for l in v.get('lines', []))
+                     for k, v in res.items() if k.startswith('check_'))
+        crashed = any(isinstance(v, dict) and v.get('exit') == 2 for k, v in res.items() if k.startswith('check_'))
+        verdict = 'caught' if caught else ('check crashed (exit 2)' if crashed else 'MISSED')
+        head = subprocess.run(['git', '-C', '/repo', 'log', '--format=%h', '-1'], stdout=subprocess.PIPE, text=True).stdout.strip()
+        vhead = subprocess.run(['git', '-C', VERIF, 'log', '--format=%h', '-1'], stdout=subprocess.PIPE, text=True).stdout.strip()
+        hist.append({'repo_head': head, 'verif_head': vhead, 'tiers': tiers, 'verdict': verdict})
+        firsts = [h['verdict'] for h in hist]
+        meta['history'] = hist
+        meta['last_result'] = verdict if len(set(firsts)) == 1 else f'{verdict} (history: ' + ' -> '.join(firsts) + ')'
         meta.update({'property': prop, 'confirmed': res, 'confirmed_by': 'tools_seed.py in a scratch worktree (patch applies to HEAD, 4 pinned test files pass, demo exits 1 with / 0 without the patch)'})
         json.dump(meta, open(os.path.join(dst, 'meta.json'), 'w'), indent=1)
         print('kept as', dst)
